@@ -8,6 +8,7 @@ import Rva.Model.Imm
 import Rva.Model.Lexer
 import Rva.Model.Parser
 import Rva.Model.Pipeline
+import Rva.Model.Render
 open Rva
 
 def showInt32 (w : Word) : String := toString w.toInt
@@ -45,6 +46,9 @@ def handle (line : String) : List String :=
     | some v => [s!"CSRIMM {v}"]
     | none => ["CSRIMM ERR"]
   | ["lex", h] => (lexString (stringOfHex h)).map LexItem.trace
+  | ["region", h, line, start, stop] =>
+    (formatRegion (stringOfHex h).toList line.toNat! start.toNat! stop.toNat!).map
+      fun l => s!"REGION {hexOfString (String.ofList l)}"
   | "parse" :: k :: rest => parseTrace (filesOfArgs k.toNat! rest)
   | "pipe" :: stages :: k :: rest =>
     let files := filesOfArgs k.toNat! rest
